@@ -593,7 +593,8 @@ async fn lane(li: usize, p: Plan, seed: u64, concurrent: bool, errs: &Errs, seen
                 match st.next().await {
                     Some(Ok(b)) if b.is_empty() => break,
                     Some(Ok(b)) => got.extend_from_slice(&b),
-                    Some(Err(e)) if e.raw_os_error() == Some(libc::ENOBUFS) && rounds < 10_000 => compio_runtime::time::sleep(at(1)).await,
+                    // (the pool is shared with the other lanes: exhausted for the moment, reported as such)
+                    Some(Err(e)) if (e.kind() == std::io::ErrorKind::ResourceBusy || e.raw_os_error() == Some(libc::ENOBUFS)) && rounds < 10_000 => compio_runtime::time::sleep(at(1)).await,
                     Some(Err(e)) => {
                         errs.push("stream-content", format!("lane {li}: the multishot read failed with {e} after {} of {total} bytes", got.len()));
                         break;
